@@ -256,6 +256,24 @@ def random_shard(seed, n_examples):
     return stats
 
 
+def bigpow_shard(p):
+    """constant exponents in the hundreds (x ** 255 ... x ** 769: long product chains, deep recursion in the library): Python's
+    integer, or a refusal (RecursionError counts as one)"""
+    stats = core.Stats()
+    known = core.load_known("C05")
+    found = {}
+    cfg = {"p": p, "b": 16, "r": 0, "ignore": False}
+    for n in (63, 64, 65, 127, 128, 129, 255, 256, 257, 258, 300, 511, 512, 513, 514, 600, 768, 769, 770):
+        for x in (2, -2, 3, 1, 0, -1):
+            args = [("I", "priv", x), ("i", None, n)]
+            res, prog = _judge(cfg, "pow", args, None)
+            stats.case(["pow", "Ii", [x, n]], True, ("pow:exponent>=63",), sample_cap=1)
+            if res is not None:
+                record(stats, known, res, prog, "pow", "Ii", found)
+    stats.violations = list(found.values())
+    return stats
+
+
 def chain_shard(b, p):
     """deterministic chains (ir.chain_programs): the output of one operation, with the internal form that operation gave it, is the
     input of the next together with the first operation's own operands; every step is compared with the Python model"""
@@ -398,6 +416,7 @@ def run(ctx):
     total.merge_json(core.run_shards("harness.checks.c05", "wide_grid_shard", [dict(p=pp) for pp in ("bn128", "bls12-381")]).to_json())
     total.merge_json(core.run_shards("harness.checks.c05", "random_shard",
                                      [dict(seed=ctx.seed * 1000 + i, n_examples=nrand) for i in range(nshards)]).to_json())
+    total.merge_json(core.run_shards("harness.checks.c05", "bigpow_shard", [dict(p="bn128"), dict(p="curve25519")]).to_json())
     total.merge_json(core.run_shards("harness.checks.c05", "chain_shard", [dict(b=8, p="bn128"), dict(b=16, p="bls12-381"), dict(b=4, p="curve25519")]).to_json())
     total.merge_json(core.run_shards("harness.checks.c05", "program_shard",
                                      [dict(seed=ctx.seed * 1000 + 500 + i, n_examples=120 if ctx.tier == "quick" else 3000) for i in range(8)]).to_json())
